@@ -57,7 +57,8 @@ Check(e, c) ==
     [] e.ev = "Owned" -> IF Len(e.mutated) = 0 THEN "ok" ELSE "evaluator_data_modified"
     [] e.ev = "Snap"  -> IF Len(e.changed) = 0 THEN "ok" ELSE "delivered_result_changed"
     [] e.ev = "Pair"  -> IF e.sigA = e.sigB THEN "ok" ELSE "inactive_entries_influence_result"
-    [] OTHER -> "ok"
+    [] e.ev = "Reset" -> "ok"
+    [] OTHER -> "unknown_event"
 
 Init == tid \in 1..Len(Traces) /\ l = 1 /\ verdict = "ok" /\ cache = 0
 Next == /\ verdict = "ok" /\ l <= Len(Traces[tid])
